@@ -22,7 +22,11 @@ META = dict(
          "of the two words are enumerated by the specification (only lower/upper/title are styles). A concurrent "
          "stage runs 16 goroutines over TLC-generated long identifiers x templates on a -race build (a race report "
          "is a disagreement, C20:data-race) and on the plain build, comparing every concurrent result with the "
-         "prediction and with the value the same call returned alone.",
+         "prediction and with the value the same call returned alone. History independence: every shard's cases are "
+         "evaluated again in reversed and in seeded order in the same process and compared with the prediction, and "
+         "the collision family (NamingPairGen.tla: all (template, identifier) readings of one character string, "
+         "equal concatenation, different promised results) is evaluated in one process in forward/reversed/seeded "
+         "order. Identifier alphabets include the boundary characters a/z, A/Z, 0/9.",
     note="Trusted: TLC, the token->rune table of the driver, the copy of the two leaf packages (tools/god/config and "
          "the rest of the generator cannot be compiled offline). Identifier alphabet {a,b,A,B,1,_,U+4E2D} (+space for "
          "camel/snake); characters for which 'title casing of a word' or 'upper-case letter' is not fixed by the "
@@ -80,9 +84,35 @@ PLANS = {
     "casing": consts('{"a","B","_"}', 2, [],
                      dict(TplPrefixes=sset([""]), GoForms='Casings(<<"g","o">>)', TplThroughs=sset(["", "_"]),
                           DesForms='Casings(<<"d","e","s","i","g","n","e","r">>)', TplSuffixes=sset([""]))),
+    # boundary characters of every ASCII class (a/z, A/Z, 0/9) in identifiers
+    "bound5": consts('{"a","z","Z","9","_"}', 5, ["go_designer", "GoDesigner", "GODESIGNER", "go"]),
+    "bound6": consts('{"a","z","Z","9","_"}', 6, ["go_designer", "GoDesigner", "GODESIGNER", "go"]),
+    "bound8c": consts('{"a","A","y","z","Z","0","9","_"}', 4, ["goDesigner", "Go_DESIGNER", "designer"]),
     # concurrent stage: long identifiers with many words (most of them in the round-trip domain)
     "conc": consts('{"a","b","c","_"}', 15, VALID8 + INVALID6, emit_from=8),
 }
+
+
+PAIR_BASES = ["go_designer", "GoDesigner", "x_godesigner", "GO-designer.1"]
+PAIR_TAIL = '{"a","B","_","1"}'
+
+
+def pairs(ctx, binp, name, maxlen):
+    """Collision family (spec/NamingPairGen.tla): all readings (template, identifier) of one string, evaluated one
+    after the other in ONE process in forward / reversed / seeded order."""
+    only = os.environ.get("VERIF_PLANS")
+    if only and name not in only.split(","):
+        return
+    K = dict(IdChars=PAIR_TAIL, MaxLen=maxlen, Templates="<<>>", Bases=sset(PAIR_BASES))
+    cfg = core.render_cfg(spec="Spec", constants=K, invariants=["Collides", "Emit"])
+    r = ctx.tlc("NamingPairGen", cfg, constants=K, name=name, timeout=900, workers=6)
+    cases = [p for p in r.printed if p.startswith('{"tail"')]
+    if not cases:
+        raise core.Infra("NamingPairGen printed no case")
+    path, cnt = ctx.write_cases(name + ".ndjson", cases)
+    ctx.samples += core.sample_of(cases[len(cases) // 2:], 1)
+    ctx.notes.setdefault("pairs", {})[name] = dict(tails=len(cases), bases=len(PAIR_BASES))
+    ctx.replay(".", {}, "^TestVerifC20Pairs$", path, label=name, shards=1, binp=binp)
 
 
 def mc(ctx, maxlen):
@@ -111,7 +141,7 @@ def build_driver(ctx):
     for f in glob.glob(os.path.join(core.HARNESS, "kit", "*.go")):
         shutil.copy(f, os.path.join(mod, "verifkit"))
     os.makedirs(os.path.join(mod, "drv"))
-    for f in ("naming_test.go", "concurrent_test.go"):
+    for f in ("naming_test.go", "concurrent_test.go", "pairs_test.go"):
         shutil.copy(os.path.join(core.HARNESS, "c20", f), os.path.join(mod, "drv", f))
     open(os.path.join(mod, "go.mod"), "w").write("module verifc20\n\ngo 1.19\n\nrequire golang.org/x/text v0.5.0\n")
     # checksums of the cached golang.org/x/text: the repository's go.sum when there is one (an
@@ -235,6 +265,8 @@ def run(ctx):
         one(ctx, binp, "ids4", "ids4")
         one(ctx, binp, "tpl2", "tpl2")
         one(ctx, binp, "space4", "space4")
+        one(ctx, binp, "bound5", "bound5")
+        pairs(ctx, binp, "collide", 3)
         one(ctx, binp, "sim", "sim", simulate=200, depth=13)
         concurrent(ctx, racebin, binp, "conc", "conc", simulate=40, depth=16)
     else:
@@ -242,12 +274,20 @@ def run(ctx):
         one(ctx, binp, "ids6", "ids6")
         one(ctx, binp, "tpl3", "tpl3")
         one(ctx, binp, "space6", "space6")
+        one(ctx, binp, "bound6", "bound6")
+        one(ctx, binp, "bound8c", "bound8c")
+        pairs(ctx, binp, "collide", 4)
         one(ctx, binp, "sim", "sim", simulate=2500, depth=13)
         concurrent(ctx, racebin, binp, "conc", "conc", goroutines=16, iters=10, simulate=150, depth=16)
 
 
 def replay(ctx, rp):
     plan = (rp.get("label") or "ids4").split("-")[0]
+    if plan == "collide":
+        binp, racebin = build_driver(ctx)
+        path, _ = ctx.write_cases("replay.ndjson", [rp["case"]])
+        ctx.replay(".", {}, "^TestVerifC20Pairs$", path, label="replay", binp=binp)
+        return
     if plan not in PLANS:
         raise core.Infra("replay file names unknown plan %r" % plan)
     binp, racebin = build_driver(ctx)
